@@ -358,7 +358,7 @@ impl World {
                     }
                 }
             }
-            Ev::CorruptImport { fixture, corrupt, read } => {
+            Ev::CorruptImport { fixture, corrupt, read, evaluate } => {
                 let base: Result<Vec<u8>, String> = match fixture {
                     Some(name) => std::fs::read(format!("{}/{}", fixtures_dir(), name)).map_err(|e| format!("harness: fixture {name}: {e}")),
                     None => export_xlsx(self.primary.model()),
@@ -384,7 +384,9 @@ impl World {
                             Ok(wb) => match Model::from_workbook(wb, "en") {
                                 Err(e) => Aux::Corrupted { imported: false, error: Some(e), non_finite: vec![], reader_faults, bytes_len },
                                 Ok(mut m) => {
-                                    m.evaluate();
+                                    if *evaluate {
+                                        m.evaluate();
+                                    }
                                     let node = Node::from_model(m, "en", 999);
                                     let nf = crate::monitors::non_finite(&node).into_iter().map(|(_, d)| d).collect();
                                     Aux::Corrupted { imported: true, error: None, non_finite: nf, reader_faults, bytes_len }
